@@ -259,7 +259,22 @@ def scenario_stale_leader(binary, rng, burst=6):
             st, body = n1.publish(k, GROUP, "base-" + k, timeout=10.0)
             obs["history"].append({"i": i, "node": 1, "op": "pub", "key": k, "value": "base-" + k, "status": st, "body": body[:60]})
             i += 1
-        old = find_leader(nodes) or n1
+        # phase 0: rotate the leadership once.  (A cluster formed by joins keeps its followers as
+        # non-voters inside the FIRST leader's raft core - recorded finding - so the stale-leader
+        # experiment is made with a leader that came out of an election.)
+        first = find_leader(nodes) or n1
+        first.sigstop()
+        rot, secs = wait_until(lambda: find_leader([n for n in nodes if n is not first]), 25.0)
+        first.sigcont()
+        obs["rotated_to"] = rot.node_id if rot else None
+        if rot:
+            rot.publish("rot", GROUP, "r")
+            for n in nodes:
+                ok, _ = wait_serves(n, "rot", "r", 40.0)
+                if not ok:
+                    obs["errors"].append("node %d does not follow after the rotation" % n.node_id)
+        old = find_leader(nodes) or rot or n1
+        obs["elected_leader_frozen"] = old.node_id
         others = [n for n in nodes if n is not old]
         old.sigstop()
         newl, secs = wait_until(lambda: find_leader(others), 25.0)
@@ -271,12 +286,15 @@ def scenario_stale_leader(binary, rng, burst=6):
             i += 1
         old.sigcont()
         for j in range(burst):                      # at once: the old leader has not yet seen the new term
-            k = keys[1 + j % 2]
-            v = "stale-%d" % j
+            # every write goes to its own key, so that a lost acknowledged write cannot be masked by a later one
             if j % 3 == 2:
+                k = keys[1 + (j // 3) % 2]
                 st, body = old.delete_config(k, GROUP, timeout=10.0)
                 obs["history"].append({"i": i, "node": old.node_id, "op": "del", "key": k, "status": st, "body": body[:60]})
             else:
+                k = "stale%d" % j
+                keys.append(k)
+                v = "stale-%d" % j
                 st, body = old.publish(k, GROUP, v, timeout=10.0)
                 obs["history"].append({"i": i, "node": old.node_id, "op": "pub", "key": k, "value": v, "status": st, "body": body[:60]})
             i += 1
@@ -290,6 +308,49 @@ def scenario_stale_leader(binary, rng, burst=6):
         time.sleep(1.0)
         obs["final"] = {str(n.node_id): read_all(n, [("", k) for k in keys]) for n in nodes}
         obs["fatal"] = fatal_storage_errors(c)
+    return obs
+
+
+def scenario_no_majority(binary, rng):
+    """3 voters formed by joins, first leader; BOTH followers frozen: a publish cannot be committed by a
+    majority and must not be answered with success.  If it is, the leader is then killed and the
+    followers continued: the acknowledged write is lost although only a minority failed."""
+    obs = {"scenario": "no_majority", "errors": []}
+    with Cluster(binary, nodelib.DEFAULT_WORKROOT, "nm") as c:
+        n1 = c.node(1, auto_init=True)
+        n1.start()
+        n1.wait_ready()
+        nodes = [n1]
+        for i in (2, 3):
+            n = c.node(i, join_addr=n1.raft_addr)
+            n.start()
+            try:
+                n.wait_ready(need_leader=False)
+            except RuntimeError as e:
+                obs["errors"].append(str(e)[:300])
+            m, _ = wait_member(n1, i)
+            if not m:
+                obs["errors"].append("node %d did not join" % i)
+            nodes.append(n)
+        n1.publish("base", GROUP, "b")
+        for n in nodes:
+            wait_serves(n, "base", "b", 20.0)
+        nodes[1].sigstop()
+        nodes[2].sigstop()
+        t = time.time()
+        obs["publish_without_majority"] = n1.publish("lonely", GROUP, "x", timeout=6.0)
+        obs["publish_s"] = round(time.time() - t, 2)
+        obs["leader_serves"] = n1.get_config("lonely", GROUP)
+        n1.kill9()
+        nodes[1].sigcont()
+        nodes[2].sigcont()
+        newl, secs = wait_until(lambda: find_leader(nodes[1:]), 30.0)
+        obs["new_leader"] = newl.node_id if newl else None
+        if newl:
+            newl.publish("probe", GROUP, "q", timeout=10.0)
+            for n in nodes[1:]:
+                wait_serves(n, "probe", "q", 30.0)
+        obs["followers_serve"] = {str(n.node_id): n.get_config("lonely", GROUP) for n in nodes[1:]}
     return obs
 
 
